@@ -228,3 +228,57 @@ func ZZ_C16_ListsRawBytes() {
 	}
 	vx.Assert("decoder returned", true)
 }
+
+type zzChoiceAB struct {
+	Present int
+	A       *int64 `ber:"tagNum:0"`
+	B       *bool  `ber:"tagNum:1"`
+}
+
+type zzSeqWithChoice struct {
+	N int64      `ber:"tagNum:0"`
+	C zzChoiceAB `ber:"tagNum:1"`
+}
+
+// Elements with a high tag number (identifier in the multi-octet form, 1 to
+// 11 tag-number octets: up to and beyond the largest tag number the header
+// parser accepts, 2^63-1) decoded into a CHOICE, a SEQUENCE and a SEQUENCE
+// with a CHOICE member: error or value, never a panic. Class bits, every
+// tag-number octet (7 value bits each), a short-form length and up to two
+// content octets are arbitrary.
+//
+//gosx:property=C16 tier=quick strictcap unwind=24 nonterm=violation maxsteps=2000000
+func ZZ_C16_HighTagNumbers() {
+	k := []int{1, 2, 5, 9, 10, 11}[vx.Choice("tagoctets", 6)]
+	id := vx.Byte("id")
+	vx.Assume(id&0x1f == 0x1f)
+	b := []byte{id}
+	for i := 0; i < k; i++ {
+		t := vx.Byte("t")
+		if i < k-1 {
+			vx.Assume(t&0x80 != 0)
+		} else {
+			vx.Assume(t&0x80 == 0)
+		}
+		b = append(b, t)
+	}
+	n := vx.Choice("contentlen", 3)
+	b = append(b, byte(n))
+	for i := 0; i < n; i++ {
+		b = append(b, vx.Byte("c"))
+	}
+	switch vx.Choice("target", 3) {
+	case 0:
+		var w zzChoiceAB
+		Unmarshal(b, &w)
+	case 1:
+		var w zzTwo
+		Unmarshal(b, &w)
+	default:
+		var w zzSeqWithChoice
+		// the CHOICE member sits behind a well-formed outer header
+		outer := append([]byte{0x30, byte(len(b) + 2), 0xa1, byte(len(b))}, b...)
+		Unmarshal(outer, &w)
+	}
+	vx.Assert("decoder returned", true)
+}
